@@ -200,7 +200,8 @@ def tc_diff(exp, got, aggs):
 # which recorded deviation classes (cls= of the specification's answer, see Spec/Metrics.lean `classes`) can explain which
 # kind of disagreement; a disagreement that none of the query's classes can explain is reported without class
 M_SELECT = {"absent-label-matcher", "same-label-twice", "no-tags", "tsid-preimage-collision", "tag-value-over-64k",
-            "numeric-tag-value", "remote-write-escape", "tsids-per-value-over-64k", "crash-before-tags-flush", "escaped-metric-name"}
+            "numeric-tag-value", "remote-write-escape", "tsids-per-value-over-64k", "crash-before-tags-flush", "escaped-metric-name",
+            "escaped-tag-value-tsid"}
 M_LABELS = {"value-has-comma", "json-escaped-tag-value", "tsid-preimage-collision", "tag-value-over-64k",
             "numeric-tag-value", "remote-write-escape", "tsids-per-value-over-64k"}
 M_RELEVANT = {
@@ -212,7 +213,7 @@ M_RELEVANT = {
     "series-duplicated": set(),
     "labels-changed": M_LABELS,
     "point-missing": {"tsid-preimage-collision", "absent-label-matcher", "tag-value-over-64k", "tsids-per-value-over-64k", "remote-write-escape", "numeric-tag-value",
-                      "crash-before-tags-flush", "escaped-metric-name", "tag-value-not-a-string"},
+                      "crash-before-tags-flush", "escaped-metric-name", "tag-value-not-a-string", "escaped-tag-value-tsid"},
     "point-extra": {"tsid-preimage-collision", "tag-value-not-a-string"},
     "label-values": {"tag-value-not-a-string", "crash-before-tags-flush", "label-values-first-metric-only", "label-values-of-all-keys"},
     "value-bits-changed": {"negative-zero", "tsid-preimage-collision", "name-regex-same-tagset", "tag-value-not-a-string"},
@@ -227,7 +228,7 @@ M_BIN = {"value-has-comma", "absent-label-matcher", "matcher-on-missing-key", "s
          "tag-value-over-64k", "crash-before-tags-flush", "star-literal-matcher", "tag-value-not-a-string",
          "binop-one-sided-timestamp", "binop-division-by-zero", "vector-matching-label-chars", "set-operator-with-on", "unary-minus",
          "comparison-scalar-on-the-left", "empty-intermediate-vector", "escaped-metric-name", "mixed-name-vector-operand",
-         "vector-matching-value-ends-with-brace"}
+         "vector-matching-value-ends-with-brace", "escaped-tag-value-tsid"}
 # classes of REPAIRED deviations (known_findings.txt `fixed:` lines).  They never excuse anything: a disagreement that a
 # still recorded class of the query can explain is reported under that class alone; one that only repaired classes could
 # explain is reported as e2em/in-class/<repaired class>, which no `known:` line lists any more — i.e. as a VIOLATION
@@ -241,6 +242,8 @@ M_FIXED = {"tsid-preimage-collision", "no-tags", "negative-zero", "json-escaped-
            "vector-matching-label-chars", "set-operator-with-on", "unary-minus", "comparison-scalar-on-the-left",
            "empty-intermediate-vector", "label-values-first-metric-only", "label-values-of-all-keys", "escaped-metric-name",
            "mixed-name-vector-operand",
+           # patch c08-3: the TSID is hashed over tag values, not over their JSON spelling
+           "escaped-tag-value-tsid",
            # patch c09-26: count over series that share one group id
            "name-regex-same-tagset",
            # patch c09-27: series whose group has no labels
